@@ -107,7 +107,82 @@ def configs(tier):
     for fn in ("add", "multiply", "divide", "subtract", "sqrt", "negative", "square"):
         for ua, ub in [("m", "m"), ("m", "cm"), ("m", "s")]:
             out.append(dict(fn=fn, ua=ua, ub=ub, dt="float64", shape=[2], form="out", other="Array"))
+    # ufunc METHODS (np.multiply.reduce, np.add.outer, ...): refused (TypeError) or dimensionally right
+    for fn, method in UFUNC_METHODS:
+        for ua, ub in ([("m", "m"), ("m", "cm"), ("m", "s")] if method == "outer" else [("m", "m"), ("dimensionless", "dimensionless")]):
+            out.append(dict(fn=fn, method=method, ua=ua, ub=ub, dt="float64", shape=[2], form="method"))
     return out
+
+
+UFUNC_METHODS = [("add", "reduce"), ("maximum", "reduce"), ("add", "accumulate"), ("multiply", "reduce"), ("multiply", "accumulate"),
+                 ("multiply", "outer"), ("divide", "outer"), ("add", "outer"), ("subtract", "outer")]
+
+
+def _ufunc_method(m, cfg):
+    """np.<ufunc>.<method> on Arrays: a refusal (TypeError: osyris does not support ufunc methods) is fine; an answer must carry
+    the unit dimensional analysis gives (and operands of different units must have been converted, or the call raise)."""
+    from osyris import Array
+    from pint.errors import DimensionalityError
+    fn, method, ua, ub = cfg["fn"], cfg["method"], cfg["ua"], cfg["ub"]
+    tag = f"np.{fn}.{method}:{ua}:{ub}"
+    fa, da = C.fd(ua)
+    fb, db = C.fd(ub)
+    n = 2
+    a_raw = m.array("a", (n,), "float64")
+    a = Array(a_raw, unit=ua)
+    av = [m.t(t) * fa for t in m.vals(a_raw)]
+    f = getattr(getattr(np, fn), method)
+    args = [a]
+    if method == "outer":
+        b_raw = m.array("b", (n,), "float64")
+        args.append(Array(b_raw, unit=ub))
+        bv = [m.t(t) * fb for t in m.vals(b_raw)]
+        if fn == "divide":
+            for t in bv:
+                m.assume(m.Not(m.eq(t, 0)))
+    try:
+        r = f(*args)
+    except TypeError:
+        m.ok("ufunc method refused")
+        return
+    except DimensionalityError:
+        m.require(method == "outer" and fn in ("add", "subtract") and da != db, "DimensionalityError only for incompatible operands",
+                  key=f"unexpected-raise:{tag}")
+        return
+    if method == "outer" and fn in ("add", "subtract") and da != db:
+        m.fail("operands of incompatible dimensions were combined", key=f"no-raise:{tag}")
+        return
+    if not m.require(isinstance(r, Array), "result is an Array", key=f"type:{tag}"):
+        return
+    dimless = (0, 0, 0, 0, 0)
+    if method == "outer":
+        dim = {"multiply": U.dim_mul(da, db), "divide": U.dim_mul(da, U.dim_inv(db)), "add": da, "subtract": da}[fn]
+        op = {"multiply": lambda x, y: x * y, "divide": lambda x, y: x / y, "add": lambda x, y: x + y, "subtract": lambda x, y: x - y}[fn]
+        ex = [op(x, y) for x in av for y in bv]
+    elif fn == "multiply":
+        if method == "accumulate" and tuple(da) != dimless:
+            m.fail("a cumulative product of dimensional values has no single unit: must be refused", key=f"unit:{tag}")
+            return
+        dim = U.dim_pow(da, n) if method == "reduce" else da
+        ex = [av[0] * av[1]] if method == "reduce" else [av[0], av[0] * av[1]]
+    else:
+        dim = da
+        if fn == "add":
+            ex = [av[0] + av[1]] if method == "reduce" else [av[0], av[0] + av[1]]
+        else:
+            ex = None            # maximum.reduce: value not re-derived here (np.max is in the catalogue)
+    try:
+        fr, dr = U.factor_dim(r.unit)
+    except U.UnknownUnit as e:
+        m.fail(f"unknown unit {e}", key=f"unit:{tag}")
+        return
+    if not m.require(tuple(dr) == tuple(dim), "result unit follows dimensional analysis", key=f"unit:{tag}", info=str(r.unit)):
+        return
+    if ex is not None:
+        rv = m.vals(r._array)
+        if m.require(len(rv) == len(ex), "result size", key=f"shape:{tag}"):
+            m.check("values equal the operation on the physical quantities", m.And([m.close(m.t(y) * fr, e) for y, e in zip(rv, ex)]),
+                    key=f"value:{tag}")
 
 
 # ----------------------------------------------------------------------------- helpers
@@ -129,6 +204,8 @@ def body(m, cfg):
     from osyris import Array
     from pint.errors import DimensionalityError
     from symx.arr import sarray
+    if cfg.get("method"):
+        return _ufunc_method(m, cfg)
     fn, dt, shape, form = cfg["fn"], cfg["dt"], tuple(cfg["shape"]), cfg["form"]
     m.dtype_tol(dt)
     cls, ar = CATALOGUE[fn]
